@@ -102,7 +102,8 @@ Record sp_state := mkSp {
 Definition sp_init : sp_state := mkSp [] [] false false [] [].
 
 Inductive viol := VConfined | VProbeReject | VSpoofReply | VStopUndone | VCloseStops | VIdempotent
-                | VPeriodic | VOther.
+                | VPeriodic | VOther
+                | VRestoreLast.   (* a forged frame written to a MAC after its restoring packet (checked on the trace by the dispatch) *)
 
 Definition mem (m : mac) (l : list mac) : bool := existsb (N.eqb m) l.
 
